@@ -21,6 +21,9 @@ struct Case
     std::vector<int> mask;        // PU indices in the process mask (sorted); empty => ignore-process-mask
     bool ignore_mask = false;
     int mask_via = 0;             // 0 --pika:process-mask, 1 PIKA_PROCESS_MASK env
+    // the OS numbers the PUs like a hyper-threaded x86 machine (all first hardware threads, then all second ones ...): hwloc's
+    // logical index l = core * pus + thread has the OS index thread * cores + core.  The process mask is given in OS indices.
+    bool os_numbering_interleaved = false;
     int threads_kind = 0;         // 0 numeric, 1 cores, 2 all
     int threads = 1;
     int bind = 0;
@@ -83,6 +86,7 @@ static Case decode(tape_t const& tape)
     // the default pool must keep at least one worker
     if (c.threads_kind == 0 && c.extra_pool >= std::min(c.threads, m)) c.extra_pool = 0;
     if (c.threads_kind != 0 && c.extra_pool >= 1 && m <= c.extra_pool * c.pus) c.extra_pool = 0;
+    c.os_numbering_interleaved = c.synthetic && c.packs == 1 && c.pus >= 2 && c.cores >= 2 && !c.ignore_mask && t.chance(1, 3);
     return c;
 }
 
@@ -109,7 +113,7 @@ static std::string describe(tape_t const& tape)
 {
     Case c = decode(tape);
     std::ostringstream os;
-    os << "{\"topology\": \"" << (c.synthetic ? "pack:" + std::to_string(c.packs) + " core:" + std::to_string(c.cores) + " pu:" + std::to_string(c.pus) : std::string("real machine (1x16x1)"))
+    os << "{\"topology\": \"" << (c.synthetic ? "pack:" + std::to_string(c.packs) + " core:" + std::to_string(c.cores) + " pu:" + std::to_string(c.pus) + (c.os_numbering_interleaved ? " (OS indexes interleaved)" : "") : std::string("real machine (1x16x1)"))
        << "\", \"process_mask\": \"" << (c.ignore_mask ? std::string("ignored") : mask_hex(c)) << (c.mask_via ? " (env)" : "") << "\", \"threads\": \""
        << (c.threads_kind == 0 ? std::to_string(c.threads) : c.threads_kind == 1 ? std::string("cores") : std::string("all")) << "\", \"bind\": \"" << bind_names[c.bind]
        << "\", \"extra_pool_pus\": " << c.extra_pool << "}";
@@ -121,6 +125,11 @@ static Outcome run(tape_t const& tape)
     Case c = decode(tape);
     int n = c.total_pus();
     std::vector<int> eff(c.mask);
+    if (c.os_numbering_interleaved)
+    {
+        // c.mask (and the hex value pika is given) is indexed by OS index; pika's masks and PU numbers are logical indices
+        for (int l = 0; l < n; ++l) eff[static_cast<std::size_t>(l)] = c.mask[static_cast<std::size_t>((l % c.pus) * c.cores + l / c.pus)];
+    }
     if (c.ignore_mask) for (auto& b : eff) b = 1;
     int m = 0;
     for (int b : eff) m += b;
@@ -139,7 +148,9 @@ static Outcome run(tape_t const& tape)
 
     std::vector<std::pair<std::string, std::string>> env;
     std::vector<std::string> unset{"PIKA_PROCESS_MASK", "PIKA_THREADS", "PIKA_BIND", "PIKA_COMMANDLINE_OPTIONS", "HWLOC_SYNTHETIC", "PIKA_IGNORE_PROCESS_MASK"};
-    if (c.synthetic) env.push_back({"HWLOC_SYNTHETIC", "pack:" + std::to_string(c.packs) + " core:" + std::to_string(c.cores) + " pu:" + std::to_string(c.pus)});
+    if (c.synthetic)
+        env.push_back({"HWLOC_SYNTHETIC", "pack:" + std::to_string(c.packs) + " core:" + std::to_string(c.cores) + " pu:" + std::to_string(c.pus) +
+                (c.os_numbering_interleaved ? "(indexes=" + std::to_string(c.pus) + "*" + std::to_string(c.cores) + ")" : std::string())});
     std::vector<std::string> args{"verif"};
     args.push_back("--pika:threads=" + (c.threads_kind == 0 ? std::to_string(c.threads) : c.threads_kind == 1 ? std::string("cores") : std::string("all")));
     if (c.bind != 5) args.push_back(std::string("--pika:bind=") + bind_names[c.bind]);
@@ -206,6 +217,7 @@ static Outcome run(tape_t const& tape)
     out.nontrivial = (c.pus >= 2 || c.packs >= 2) && strict_subset && expect_threads >= 2;
     out.tags.push_back(std::string("bind:") + bind_names[c.bind]);
     out.tags.push_back(c.synthetic ? "topology:synthetic" : "topology:real");
+    if (c.os_numbering_interleaved) out.tags.push_back("topology:os_indexes_differ_from_logical");
     if (expect_error) out.tags.push_back("class:oversubscription_request");
     if (c.threads_kind) out.tags.push_back(c.threads_kind == 1 ? "threads:cores" : "threads:all");
     if (c.extra_pool) out.tags.push_back("has:extra_pool");
